@@ -60,6 +60,18 @@ def refine(state, cond, truth, blk=None):
     return frozenset(out)
 
 
+import re as _re
+_FRESH = _re.compile(r"(^|_)(new|dup)(_|$)")
+
+
+def fresh_call(s):
+    """call whose result is a freshly allocated object (allocation failure is outside every property's quantifier)"""
+    cn = X.callee_name(s)
+    if cn:
+        return cn in ALLOCATORS or bool(_FRESH.search(cn))
+    return X.dispatch_slot(s) in ("dup", "noo")
+
+
 def rhs_nullness(state, rhs):
     """'nn' / 'null' / None for the value of an expression under the state."""
     if rhs is None:
@@ -68,6 +80,14 @@ def rhs_nullness(state, rhs):
         return "null"
     s = X.strip(rhs)
     k = s.get("k")
+    if k == "call" and fresh_call(s):
+        # a constructor/dup handed a NULL source yields NULL; otherwise a fresh object
+        args = s["ch"][1:]
+        if args and rhs_nullness(state, args[0]) != "nn" and (X.callee_name(s) or "").find("dup") >= 0:
+            return None
+        if X.dispatch_slot(s) == "dup":
+            return "nn"
+        return "nn"
     if k == "str" or (k == "un" and s.get("op") == "&"):
         return "nn"
     if k == "bin" and s.get("op") in ("+", "-") and X.is_pointer(s):
